@@ -127,6 +127,15 @@ CHECKS = {
         "reset, no unnecessary scroll; rejected sizes raise the documented error before any byte is written.",
         note="Trusts VTerm (incl. iTerm2/wezterm/konsole personalities), the logical clock replacing sleep/time in the library's namespaces, and the padding geometry model.",
     ),
+    "C07": dict(
+        level="fault_enumeration",
+        technique="fault enumeration: a KeyboardInterrupt / other exception at every write, flush, sleep and render operation of each generated draw() (clean-up classified by stack walk at injection time), with escape-cutting write prefixes; VTerm + termios + state observers",
+        text="Every non-clean-up operation of each profiled draw() (both APIs, stills and animations, all styles per identity) is faulted once "
+        "per exception kind and per delivered prefix; afterwards the cursor must be visible, no graphics string or chunked transmission left "
+        "open, a probe text displayed, attributes reset, termios identical, render data finalized once, image size/frame unchanged, and the "
+        "outcome as documented (animations end silently on Ctrl-C, stills propagate).",
+        note="Graphics-capable personalities keep consuming an unterminated APC/OSC until ST (what the library's handlers exist for); clean-up ranges come from the AST of the current tree.",
+    ),
 }
 
 NOT_APPLICABLE = {
